@@ -8,7 +8,8 @@ LEAN_MODULES = ['HidVerif.Props.C07']
 THEOREMS = ['HidVerif.Props.C07.' + n for n in ('coercible_table', 'cast_table', 'literal_shrinkable', 'substituted_literal_not_shrinkable',
                                                  'explicit_int_cast_not_shrinkable', 'arith_shrinkable', 'narrowing_rejected',
                                                  'const_array_to_mutable_rejected', 'resolve_exact', 'resolve_fallback', 'resolve_spec',
-                                                 'const_targets')]
+                                                 'const_targets', 'accepted_programs_are_well_typed', 'accepted_expressions_are_well_typed',
+                                                 'cast_has_target_type')] + ['HidVerif.Hid.TC.tcProgram_wt', 'HidVerif.Hid.TC.tcExpr_wt', 'HidVerif.Hid.TC.cast_ok', 'HidVerif.Hid.Parse.parse_sound']
 TRUSTED = TRUSTED_BASE + ['Hid/Typecheck.lean, Hid/TypecheckStmt.lean: hand-written model of the evaluate methods; tied by the tc suite '
                           '(identical typed tree on acceptance, identical error class on rejection)',
                           'the rule oracle of harness/props/C07.py (documented coercion lattice and overload rule)']
